@@ -369,6 +369,10 @@ class ProdParser:
         self._log = cssutils.log
         if clear:
             tokenizer.clear()
+            # tokens saved for an enclosing parser are taken over by its
+            # running ``parse`` loop; anything still here was left behind by
+            # an earlier, unrelated parse
+            del savedTokens[:]
 
     def _texttotokens(self, text):
         """Build a generator which is the only thing that is parsed!
